@@ -394,7 +394,9 @@ impl<'a> Al<'a> {
                     }
                 }
                 None => {
-                    if !v.eq_ignore_ascii_case(&q.local) {
+                    // an attribute written without a value: HTML reads the empty string; xot also minimises an attribute
+                    // whose value repeats its name (not judged, see assumptions)
+                    if !v.is_empty() && !v.eq_ignore_ascii_case(&q.local) {
                         return Err(fail("attribute-value-differs", &cname, format!("{} minimised although its value is {:?}", an, v)));
                     }
                 }
